@@ -44,7 +44,7 @@ M = [
  ("m34-sort-always", "C05", "ural/normalize_url.py", "        if sort_query:\n            qsl = sorted(qsl, key=qsl_sort_key)", "        if True:\n            qsl = sorted(qsl, key=qsl_sort_key)"),
  ("m35-strip-index-dir", "C05", "ural/normalize_url.py", "            filename, _ = splitext(last_segment)\n\n            if filename == \"index\"", "            filename = last_segment.split(\".\")[0]\n\n            if filename == \"index\""),
  ("m36-unparseable-none", "C05", "ural/normalize_url.py", "    except ValueError:\n        return original_url_arg\n\n    scheme, netloc", "    except ValueError:\n        return None\n\n    scheme, netloc"),
- ("m37-fragment-guard-inverted", "C05", "ural/normalize_url.py", "        if strip_fragment is True or not should_strip_fragment(fragment):", "        if strip_fragment is True or should_strip_fragment(fragment):"),
+ ("m37-fragment-guard-inverted", "C04", "ural/normalize_url.py", "        if strip_fragment is True or not should_strip_fragment(fragment):", "        if strip_fragment is True or should_strip_fragment(fragment):"),
  ("m38-auth-option-ignored", "C05", "ural/normalize_url.py", "    if strip_authentication:\n        user = None", "    if True:\n        user = None"),
  # C06
  ("m39-no-lower", "C06", "ural/fingerprint_url.py", "    url = url.lower()\n", "    pass\n"),
